@@ -85,6 +85,9 @@ def apply_event(w, ev):
         w.nfinish = getattr(w, "nfinish", 0) + 1
         if ev[3] == "ok":
             w.send(ev[1], "qfinish", jobid=ev[2], result={"n": w.nfinish})
+        elif ev[3] in FALSY_RESULTS:
+            # results that are valid JSON values and falsy in Python
+            w.send(ev[1], "qfinish", jobid=ev[2], result=FALSY_RESULTS[ev[3]])
         else:
             w.send(ev[1], "qfinish", jobid=ev[2], error="boom%d" % w.nfinish)
     elif k == "kill":
@@ -117,6 +120,9 @@ def apply_event(w, ev):
         HOOKS["apply_event"](w, ev)
     else:
         raise ValueError(ev)
+
+
+FALSY_RESULTS = {"zero": 0, "emptystr": "", "emptylist": [], "emptydict": {}, "false": False}
 
 
 def run_poll(w, events, choices):
